@@ -20,13 +20,23 @@ pub struct Scale {
     pub e_an: f64,
     /// per step
     pub e_t: Vec<f64>,
+    /// sum |v| over all declared building needs (DEMANDA)
+    pub n_an: f64,
     pub area: f64,
 }
 
 impl Scale {
     pub fn of(b: &Building, area: f64) -> Scale {
         let (e_an, e_t) = b.energy_scale();
-        Scale { e_an, e_t, area }
+        let n_an = b
+            .lines
+            .iter()
+            .filter(|l| l.kind.is_need())
+            .flat_map(|l| l.f64s())
+            .filter(|v| v.is_finite())
+            .map(f64::abs)
+            .sum();
+        Scale { e_an, e_t, n_an, area }
     }
 }
 
@@ -74,6 +84,8 @@ pub fn compare(a: &Flat, b: &Flat, sc: &Scale, slack_abs: f64, slack_step: f64) 
             Cls::Em2 => (sc.e_an / area, slack_abs / area),
             Cls::Wm2 => (sc.e_an * f / area, slack_abs * f / area),
             Cls::Unit => (1.0, 0.0),
+            Cls::N => (sc.n_an, slack_abs),
+            Cls::Nm2 => (sc.n_an / area, slack_abs / area),
         };
         rep.compared += 1;
         if !va.is_finite() || !vb.is_finite() {
